@@ -1241,7 +1241,7 @@ class Gen(object):
             extra = []
             if self.p(0.6):
                 extra.append(('when', self.rng.choice(['first', 'last', 'cleanup'])))
-            elif self.p(0.05):
+            elif self.p(0.15):
                 # what a dump can contain besides a run phase, other spellings, an empty value
                 extra.append(('when', self.rng.choice(['must-collect', 'FIRST', 'Cleanup', 'LAST', 'no-recurse', ''])))
                 self.hit('signal:when=' + extra[-1][1])
